@@ -83,6 +83,7 @@ type poolCase struct {
 	// cap
 	Clients  int     `json:"clients,omitempty"`
 	Warm     int     `json:"warm,omitempty"` // sequential requests before the simultaneous ones
+	ClearWarm int    `json:"clearWarm,omitempty"` // … and requests against the cleared pool, which is then filled again
 	Peak     int     `json:"peak,omitempty"`
 	Done     int     `json:"done,omitempty"`
 	Peak2    int     `json:"peak2,omitempty"`
@@ -158,6 +159,18 @@ func (p *parker) park(id int64) {
 	}
 	p.mu.Lock()
 	p.now--
+	p.mu.Unlock()
+}
+
+// gone: a request that returned without ever reaching a rule still counts as arrived
+func (p *parker) gone(id int64) {
+	p.mu.Lock()
+	if !p.open && !p.parked[id] {
+		p.parked[id] = true
+		if len(p.parked) == p.want {
+			close(p.allIn)
+		}
+	}
 	p.mu.Unlock()
 }
 
@@ -402,19 +415,41 @@ func genPoolCase(r *rng, i int, mode string) *poolCase {
 			c.Init = append(c.Init, pRule{pNames[j], int64(10 - k), 0})
 		}
 		nu := 1 + r.intn(3)
+		// one time in three the history also moves rules (an incremental update with another
+		// salience) and removes rules: the container is then rebuilt at other positions
+		moving := r.chance(1, 3)
+		if moving {
+			nu = 2 + r.intn(3)
+		}
+		sal := map[string]int64{}
+		for _, ru := range c.Init {
+			sal[ru.Name] = ru.Sal
+		}
 		for k := 0; k < nu; k++ {
 			ver := int64(k + 1)
 			op := pOp{Op: "full", Inside: r.chance(1, 2)}
 			if r.chance(1, 2) {
 				op.Op = "incr"
 			}
+			if moving && r.chance(1, 3) {
+				// removal of one or two rules (never all of them)
+				op.Op = "remove"
+				for _, j := range r.perm(len(c.Init))[:1+r.intn(2)] {
+					op.Names = append(op.Names, c.Init[j].Name)
+				}
+				c.Ops = append(c.Ops, op)
+				continue
+			}
 			for _, ru := range c.Init {
 				if op.Op == "full" || r.chance(2, 3) {
-					op.Rules = append(op.Rules, pRule{ru.Name, ru.Sal, ver})
+					if moving && op.Op == "incr" && r.chance(1, 3) {
+						sal[ru.Name] = int64(20 + 10*k + len(op.Rules)) // to the front, still distinct
+					}
+					op.Rules = append(op.Rules, pRule{ru.Name, sal[ru.Name], ver})
 				}
 			}
 			if len(op.Rules) == 0 {
-				op.Rules = append(op.Rules, pRule{c.Init[0].Name, c.Init[0].Sal, ver})
+				op.Rules = append(op.Rules, pRule{c.Init[0].Name, sal[c.Init[0].Name], ver})
 			}
 			c.Ops = append(c.Ops, op)
 		}
@@ -422,6 +457,9 @@ func genPoolCase(r *rng, i int, mode string) *poolCase {
 	case "cap":
 		c.Clients = int(c.Max) + 1 + r.intn(4)
 		c.Warm = r.intn(4)
+		if r.chance(1, 3) {
+			c.ClearWarm = 1 + r.intn(2*int(c.Max))
+		}
 	case "iso":
 		c.Clients = 1 + r.intn(int(c.Max))
 		c.Warm = r.intn(3)
@@ -491,6 +529,30 @@ func runPoolCase(c *poolCase) {
 		h.pk.Load().(*parker).openGate()
 		h.request(int64(900+k), false, true)
 		time.Sleep(3 * time.Millisecond)
+	}
+	if c.ClearWarm > 0 {
+		// requests against a cleared pool answer at once with an empty map — and must hand their
+		// instance back like any other; afterwards the initial rules are installed again
+		h.pool.ClearPoolRules()
+		open := newParker(0)
+		open.openGate()
+		h.pk.Store(open)
+		var names []string
+		for _, ru := range c.Init {
+			names = append(names, ru.Name)
+		}
+		hows := append(append([]string{}, updMethods...), "reqresp")
+		for k := 0; k < c.ClearWarm; k++ {
+			ex := h.requestWith(hows[(k+c.I)%len(hows)], &pReq{Id: int64(800 + k)}, names)
+			if ex.Panic != "" || len(ex.Results) != 0 {
+				c.BuildErr = fmt.Sprintf("request %s against the cleared pool: results %v panic %s", ex.Method, ex.Results, ex.Panic)
+				return
+			}
+		}
+		if e := h.pool.UpdatePooledRules(pText(c.Init, stdBody)); e != nil {
+			c.BuildErr = "refill after clear: " + e.Error()
+			return
+		}
 	}
 	switch c.Mode {
 	case "mgmt":
@@ -564,6 +626,7 @@ func runPoolCase(c *poolCase) {
 					go func(k int, id int64, how string) {
 						defer wg.Done()
 						res[k] = h.requestWith(how, &pReq{Id: id}, names)
+						pk.gone(id)
 					}(k, id, pick())
 					id++
 				}
